@@ -45,3 +45,86 @@ def restore_constraint():
                 closures=[dict(params='c', typed='c: &RemovedConstraint', ret='bool', ensures='ret == removed_has_id(*c, constraint_id)'),
                           dict(params='c', typed='c: &Constraint', ret='bool', ensures='ret == (c.id == constraint_id)')],
                 proofs=[(('after', r'let index =[^;]*;'), '\n        proof { lemma_first_removed(self.removed_constraints@, constraint_id, index as int); }')])
+
+
+# ---------------------------------------------------------------- C12
+def log_encode():
+    NEWDV = '''({ let d = %(dvs)s[n0 + j]; let c = %(terms)s;
+                    &&& d.id == idb + j && d.kind == 1 && d.bound is Some && d.bound->Some_0.lower@ == XR::Fin(0real) && d.bound->Some_0.upper@ == XR::Fin(1real)
+                    &&& d.subscripts@ == seq![decision_variable_id as i64, j as i64] && d.name is Some && d.substituted_value is None
+                    &&& c.0 == idb + j && c.1@ == XR::Fin(coef(j as nat, n as nat, uu)) })'''
+    return Unit('Instance::log_encode', F, 'log_encode', impl=I, wrap=W,
+                sig='pub fn log_encode(&mut self, decision_variable_id: u64) -> Result<Linear>',
+                header='''pub fn log_encode(&mut self, decision_variable_id: u64) -> (r: Result<Linear, VErr>)
+    // observation (outside the property): ids close to u64::MAX would overflow `max id + 1 + i`
+    requires forall|i: int| 0 <= i < old(self).decision_variables.len() ==> (#[trigger] old(self).decision_variables[i]).id < 0xFFFF_FFFF_FFFF_0000,
+    ensures
+        // an error changes nothing
+        r is Err ==> *final(self) == *old(self),
+        // Ok exactly for: known id (first match), integer kind, bound set, FINITE bound, containing an integer
+        r is Ok <==> ({ let i0 = first_dv(old(self).decision_variables@, decision_variable_id);
+            &&& 0 <= i0 < old(self).decision_variables.len() && old(self).decision_variables[i0].id == decision_variable_id
+            &&& logenc_ok(old(self).decision_variables[i0]) }),
+        r is Ok ==> ({
+            let v = old(self).decision_variables[first_dv(old(self).decision_variables@, decision_variable_id)];
+            let lo = rceil(v.bound->Some_0.lower@->Fin_0); let uu = rfloor(v.bound->Some_0.upper@->Fin_0) - lo;
+            let n0 = old(self).decision_variables.len() as int; let n = r->Ok_0.terms.len() as int;
+            &&& r->Ok_0.constant@ == XR::Fin(lo)
+            &&& *final(self) == (Instance { decision_variables: final(self).decision_variables, ..*old(self) })
+            &&& final(self).decision_variables.len() == n0 + n
+            &&& forall|j: int| 0 <= j < n0 ==> #[trigger] final(self).decision_variables[j] == old(self).decision_variables[j]
+            // single integer: a constant and no new variable
+            &&& (uu == 0real ==> n == 0)
+            // otherwise n >= 1 fresh binaries with 2^(n-1) <= U < 2^n and the capped last coefficient
+            &&& (uu != 0real ==> n >= 1 && p2((n - 1) as nat) <= uu < p2(n as nat) && is_intr(uu)
+                && exists|idb: u64| #![trigger is_next_id(old(self).decision_variables@, idb)] is_next_id(old(self).decision_variables@, idb)
+                    && (forall|k: int| n0 <= k < n0 + n ==> ({ let d = #[trigger] final(self).decision_variables[k]; let j = k - n0;
+                        &&& d.id == idb + j && d.kind == 1 && d.bound is Some && d.bound->Some_0.lower@ == XR::Fin(0real) && d.bound->Some_0.upper@ == XR::Fin(1real)
+                        &&& d.subscripts@ == seq![decision_variable_id as i64, j as i64] && d.name is Some && d.substituted_value is None }))
+                    && (forall|j: int| 0 <= j < n ==> (#[trigger] r->Ok_0.terms[j]).id == idb + j && r->Ok_0.terms[j].coefficient@ == XR::Fin(coef(j as nat, n as nat, uu))))
+        }),''',
+                closures=[dict(params='dv', typed='dv: &&DecisionVariable', ret='bool', ensures='ret == (dv.id == decision_variable_id)'),
+                          dict(params='id', typed='id: &u64', ret='u64', requires='*id < u64::MAX', ensures='ret == *id + 1')],
+                subs=[('(u_l + lit_1p0()).log2().ceil() as usize', 'ceil_log2_usize(u_l + lit_1p0())'),
+                      ('self.defined_ids().last().map(', 'opt_map(btreeset_last(&self.defined_ids()), '),
+                      ('let mut terms = Vec::new();', 'let mut terms: Vec<(u64, F64)> = Vec::new();')],
+                rsubs=[(r'Linear::new\(terms\.into_iter\(\),', 'Linear::new(terms,', 1)],
+                loops=[dict(kind='for', it='it_1', inv='''invariant
+                1 <= n <= 1024, idb_ok(old(self).decision_variables@, id_base), uu == rfloor(ub) - rceil(lb), lower@ == XR::Fin(rceil(lb)), u_l@ == XR::Fin(uu), is_intr(uu),
+                p2((n - 1) as nat) <= uu < p2(n as nat),
+                terms.len() == it_1.index@, n0 == old(self).decision_variables.len(), self.decision_variables.len() == n0 + it_1.index@,
+                *self == (Instance { decision_variables: self.decision_variables, ..*old(self) }),
+                forall|j: int| 0 <= j < n0 ==> #[trigger] self.decision_variables[j] == old(self).decision_variables[j],
+                forall|k: int| n0 <= k < n0 + it_1.index@ ==> ({ let d = #[trigger] self.decision_variables[k]; let j = k - n0;
+                    &&& d.id == id_base + j && d.kind == 1 && d.bound is Some && d.bound->Some_0.lower@ == XR::Fin(0real) && d.bound->Some_0.upper@ == XR::Fin(1real)
+                    &&& d.subscripts@ == seq![decision_variable_id as i64, j as i64] && d.name is Some && d.substituted_value is None }),
+                forall|j: int| 0 <= j < it_1.index@ ==> (#[trigger] terms[j]).0 == id_base + j && terms[j].1@ == XR::Fin(coef(j as nat, n as nat, uu)),''',
+                            body_proof=' proof { lemma_p2(i as nat); lemma_p2((n - 1) as nat); }')],
+                proofs=[(('after', r'let u_l = upper - lower;'), '''
+        let ghost lb = bound.lower@->Fin_0; let ghost ub = bound.upper@->Fin_0; let ghost uu = rfloor(ub) - rceil(lb); let ghost n0 = self.decision_variables.len() as int;
+        proof { ax_floor(ub); ax_ceil(lb); ax_int_add(rfloor(ub), rceil(lb)); ax_int_consts(); }'''),
+                        (('after', r'let n = ceil_log2_usize\(u_l \+ lit_1p0\(\)\);'), '''
+        proof { if bound.lower@ is Fin && bound.upper@ is Fin { ax_discrete(1real, uu); ax_int_add(uu, 1real); lemma_p2((n - 1) as nat); lemma_p2(n as nat); ax_discrete(p2((n - 1) as nat), uu); } }'''),
+                        (('before', r'let id_base ='), '''proof {
+            let dvs = self.decision_variables@; let all = dv_ids(dvs, dvs.len() as int);
+            assert forall|y: u64| all.contains(y) implies y < 0xFFFF_FFFF_FFFF_0000 by { lemma_dv_ids_mem(dvs, dvs.len() as int, y); }
+            lemma_dv_ids_mem(dvs, dvs.len() as int, decision_variable_id);
+            assert(all.contains(decision_variable_id));
+        }
+        '''),
+                        (('before', r'let mut terms'), '''proof { lemma_next_id(old(self).decision_variables@, id_base); }
+        '''),
+                        (('before', r'Ok\(Linear::new\('), '''proof {
+            assert forall|j: int| 0 <= j < terms.len() implies (#[trigger] terms[j]).1@ is Fin && rabs(terms[j].1@->Fin_0) > eps_real() by {
+                lemma_p2(j as nat); lemma_p2((n - 1) as nat);
+            }
+        }
+        ''')])
+
+
+def linear_from_f64():
+    return Unit('From<f64> for Linear', 'linear.rs', 'from', impl=r'impl From<f64> for Linear \{', sig='fn from(constant: f64) -> Self',
+                pre='impl vstd::std_specs::convert::FromSpecImpl<F64> for Linear { open spec fn obeys_from_spec() -> bool { false } open spec fn from_spec(v: F64) -> Self { arbitrary() } }\n',
+                wrap=('impl From<F64> for Linear {', '}'),
+                header='''fn from(constant: F64) -> (r: Self)
+        ensures r.terms.len() == 0, r.constant == constant,''')
